@@ -200,17 +200,22 @@ pub fn check(c: &Case, obs: &mut Obs) -> Result<(), Fail> {
     );
     let side = want_side as usize;
     let k = side as f64 / s as f64;
-    // the colour of the (single) layer: explicit through shape_color(), else the module colour, else black
+    // the colour of the LAST layer (layers paint over each other in call order; every built-in shape covers the centre
+    // of its cell, and lower layers are only generated with opaque colours): explicit through shape_color(), else the
+    // module colour, else black
     let module_rgba = c
         .cfg
         .layers
-        .first()
+        .last()
         .and_then(|l| l.1.as_ref())
         .and_then(|x| x.rgba())
         .or_else(|| c.cfg.module_color.as_ref().and_then(|x| x.rgba()))
         .unwrap_or([0, 0, 0, 255]);
     let bg_rgba = c.cfg.background.as_ref().and_then(|x| x.rgba()).unwrap_or([255, 255, 255, 255]);
-    let shape = c.cfg.layers.first().map(|l| l.0).unwrap_or(0);
+    let shape = c.cfg.layers.last().map(|l| l.0).unwrap_or(0);
+    if c.cfg.layers.len() >= 2 {
+        obs.label(&format!("layers:{}", c.cfg.layers.len()));
+    }
     let px = |x: usize, y: usize| -> [u8; 4] {
         let p = pm.pixel(x as u32, y as u32).unwrap().demultiply();
         [p.red(), p.green(), p.blue(), p.alpha()]
@@ -227,7 +232,9 @@ pub fn check(c: &Case, obs: &mut Obs) -> Result<(), Fail> {
     let integer_scale = (side % s == 0) && side >= s;
     let ki = side / s;
     let mode;
-    if integer_scale && shape == 0 {
+    // every pixel of a cell is only determined when every layer is the plain square (other shapes leave parts of the cell
+    // to the layer below, and the rounded square's outline reaches into the neighbouring cells)
+    if integer_scale && c.cfg.layers.iter().all(|l| l.0 == 0) {
         mode = "every_pixel";
         for r in 0..s {
             for cc in 0..s {
@@ -362,8 +369,11 @@ pub fn case_strategy(versions: &'static [usize]) -> BoxedStrategy<Case> {
         warm_strategy(),
         any::<bool>(),
         prop_oneof![5 => Just(0u8), 2 => 1u8..=4],
+        // layers UNDER the one whose colour must show: 0..=2, opaque, colours from a small palette (so that a colour
+        // can re-appear: A, B, A) or the module colour
+        prop_oneof![3 => Just(Vec::new()), 2 => proptest::collection::vec((0usize..6, 0usize..4), 1..=2)],
     )
-        .prop_flat_map(|(v, li, margin, shape, (mc, bg), mask, warm, layer_explicit, pred)| {
+        .prop_flat_map(|(v, li, margin, shape, (mc, bg), mask, warm, layer_explicit, pred, under)| {
             let cell = Cell { version: v, level: Level::from_index(li), mode: Mode::Byte };
             let s = size(v) + 2 * margin.unwrap_or(4);
             let pre = prop_oneof![3 => Just(Vec::new()), 2 => proptest::collection::vec((fit_strategy(s), any::<bool>()), 1..3)];
@@ -371,7 +381,19 @@ pub fn case_strategy(versions: &'static [usize]) -> BoxedStrategy<Case> {
                 fit_order,
                 pre_fits,
                 build,
-                cfg: SvgCfg { margin, layers: shape.map(|s| vec![(s, if layer_explicit { mc.clone() } else { None })]).unwrap_or_default(), module_color: if layer_explicit && shape.is_some() { None } else { mc.clone() }, background: bg.clone(), warm, pred, ..SvgCfg::default() },
+                cfg: {
+                    const PALETTE: [[u8; 3]; 3] = [[200, 30, 30], [30, 30, 200], [20, 110, 20]];
+                    let top: Vec<(usize, Option<ColorSpec>)> = shape.map(|s| vec![(s, if layer_explicit { mc.clone() } else { None })]).unwrap_or_default();
+                    let mut layers: Vec<(usize, Option<ColorSpec>)> = Vec::new();
+                    if !top.is_empty() {
+                        for (us, uc) in under.iter() {
+                            // palette entry 3 = "same colour as the top layer" (explicit or through the module colour)
+                            layers.push((*us, if *uc == 3 { top[0].1.clone() } else { Some(ColorSpec::Rgb(PALETTE[*uc])) }));
+                        }
+                    }
+                    layers.extend(top);
+                    SvgCfg { margin, layers, module_color: if layer_explicit && shape.is_some() { None } else { mc.clone() }, background: bg.clone(), warm, pred, ..SvgCfg::default() }
+                },
                 fit,
             })
         })
